@@ -12,5 +12,3 @@ Theorem no_default_evaluated_at_import :
 Proof. split; vm_compute; reflexivity. Qed.
 Theorem fresh_directory_per_instance : sim_init_makes_fresh_dir = true.
 Proof. reflexivity. Qed.
-Theorem horizon_set_before_events_are_added : ctor_order = ["set_horizon"; "add_events"].
-Proof. reflexivity. Qed.
